@@ -155,7 +155,7 @@ pub(crate) fn read_tags_array(
     // Case where we have no tags
     if num_tags == 0 {
         put(output, 0, 4_u16.to_ne_bytes().as_slice())?;
-        burn_array(input, inposp)?;
+        burn_array(input, inposp, 0)?;
         return Ok(4);
     }
 
@@ -386,17 +386,25 @@ pub(crate) fn burn_tag(input: &[u8], inposp: &mut usize) -> Result<(), Error> {
     Ok(())
 }
 
-pub(crate) fn burn_key_and_value(input: &[u8], inposp: &mut usize) -> Result<(), Error> {
+/// The deepest nesting of arrays and objects we will skip over in a value we do not use.
+/// (skipping recurses, so unbounded nesting in the input would exhaust the stack)
+pub(crate) const MAX_BURN_DEPTH: usize = 64;
+
+pub(crate) fn burn_key_and_value(
+    input: &[u8],
+    inposp: &mut usize,
+    depth: usize,
+) -> Result<(), Error> {
     verify_char(input, b'"', inposp)?;
     burn_string(input, inposp)?;
     eat_colon_with_whitespace(input, inposp)?;
-    burn_value(input, inposp)?;
+    burn_value(input, inposp, depth)?;
     Ok(())
 }
 
 // from the character after the open brace
 // ending on the character following the close brace
-pub(crate) fn burn_object(input: &[u8], inposp: &mut usize) -> Result<(), Error> {
+pub(crate) fn burn_object(input: &[u8], inposp: &mut usize, depth: usize) -> Result<(), Error> {
     loop {
         eat_whitespace_and_commas(input, inposp);
 
@@ -406,13 +414,13 @@ pub(crate) fn burn_object(input: &[u8], inposp: &mut usize) -> Result<(), Error>
             return Ok(());
         }
 
-        burn_key_and_value(input, inposp)?;
+        burn_key_and_value(input, inposp, depth + 1)?;
     }
 }
 
 // from the character after the open bracket
 // ending on the character following the close bracket
-pub(crate) fn burn_array(input: &[u8], inposp: &mut usize) -> Result<(), Error> {
+pub(crate) fn burn_array(input: &[u8], inposp: &mut usize, depth: usize) -> Result<(), Error> {
     loop {
         eat_whitespace_and_commas(input, inposp);
 
@@ -422,11 +430,14 @@ pub(crate) fn burn_array(input: &[u8], inposp: &mut usize) -> Result<(), Error> 
             return Ok(());
         }
 
-        burn_value(input, inposp)?;
+        burn_value(input, inposp, depth + 1)?;
     }
 }
 
-pub(crate) fn burn_value(input: &[u8], inposp: &mut usize) -> Result<(), Error> {
+pub(crate) fn burn_value(input: &[u8], inposp: &mut usize, depth: usize) -> Result<(), Error> {
+    if depth > MAX_BURN_DEPTH {
+        return Err(InnerError::JsonBad("JSON value nested too deeply", *inposp).into());
+    }
     if *inposp >= input.len() {
         return Err(InnerError::JsonBad("Too short burning an unused JSON value", *inposp).into());
     }
@@ -437,11 +448,11 @@ pub(crate) fn burn_value(input: &[u8], inposp: &mut usize) -> Result<(), Error> 
         }
         b'[' => {
             *inposp += 1;
-            burn_array(input, inposp)?
+            burn_array(input, inposp, depth)?
         }
         b'{' => {
             *inposp += 1;
-            burn_object(input, inposp)?
+            burn_object(input, inposp, depth)?
         }
         b't' => burn_true(input, inposp)?,
         b'f' => burn_false(input, inposp)?,
